@@ -106,7 +106,8 @@ func (c *Conn) Read(p []byte) (int, error) {
 			c.ReadBytes += k
 			return k, nil
 		}
-		if h.closed {
+		if h.closed && len(h.fly) == 0 {
+			// like TCP: data sent before the close is delivered before the end of stream
 			return 0, io.EOF
 		}
 		h.cond.Wait()
